@@ -17,7 +17,7 @@ from core import Stream, hexs, unhex
 
 ID = "C04"
 DESIGN_REF = "DESIGN.md section 5, C04"
-LEAN_TARGETS = ["PV.C04.Thm", "PV.C04.ProgRules"]
+LEAN_TARGETS = ["PV.C04.Thm", "PV.C04.IndentInv", "PV.C04.ProgRules"]
 DRIVER = "drv_c04"
 HARNESS = {"bin": "pvh_c04", "features": "default"}
 THEOREMS = [
@@ -63,6 +63,33 @@ THEOREMS = [
     "PV.C04.softkw_error_cuts_line_partial",
     "PV.C04.indentGo_tab_after_space",
     "PV.C04.indentGo_dedent_unknown",
+    # --- reachable states of the line driver (PV.C04.IndentInv): decomposition, stack invariant, line rules at file level ---
+    "PV.C04.indentGo_cons",
+    "PV.C04.indentGo_append",
+    "PV.C04.indentCheck_split",
+    "PV.C04.compareStrict_gt_trans",
+    "PV.C04.dedentGo_suffix",
+    "PV.C04.indentStep_inv",
+    "PV.C04.indentRun_inv",
+    "PV.C04.indentRun_chain",
+    "PV.C04.indentStep_need",
+    "PV.C04.indentRun_pos",
+    "PV.C04.indentGo_inconsistent",
+    "PV.C04.indentGo_unexpected_indent",
+    "PV.C04.indentGo_expected_indent",
+    "PV.C04.indentGo_expected_indent_eof",
+    "PV.C04.indentCheck_dedent_unknown",
+    "PV.C04.indentCheck_expected_indent",
+    "PV.C04.indentCheck_unexpected_indent",
+    "PV.C04.indentCheck_inconsistent",
+    "PV.C04.indentCheck_expected_indent_eof",
+    "PV.C04.dedentGo_tabError",
+    "PV.C04.dedentGo_unknown",
+    "PV.C04.indentStep_error_reason",
+    "PV.C04.indentGo_eq_all",
+    "PV.C04.indentAll_error",
+    "PV.C04.indentCheck_rejection_reason",
+    "PV.C04.indentCheck_none_iff",
     "PV.C04.lexStringBody_closed_iff",
     "PV.C04.bytesLit_rejects_nonAscii",
     "PV.C04.bytesLit_nonAscii_only",
@@ -143,10 +170,15 @@ PARTIAL = [
     "each group is sampled by correspondence, not proved",
     "which reduction of the LR automaton runs first, and the grammar's treatment of the tiny token languages of the "
     "streams (numParse, rawGo trailers, strParse, indentGo block rule), are part of the tie, not of the theorems",
-    "indentation: compare_strict, eat_indentation and the dedent search are characterised for all inputs and lifted to "
-    "whole lines for the two catalogue rules (indentGo_tab_after_space, indentGo_dedent_unknown, the latter assuming "
-    "the Chain invariant of the stack); that indentGo maintains that invariant, and its expected/unexpected-indent "
-    "rule, are covered by correspondence only",
+    "indentation: compare_strict, eat_indentation, the dedent search and the line driver indentGo are characterised for "
+    "all inputs (PV.C04.IndentInv: the Chain invariant of the stack holds in every state reachable from the start of a "
+    "file, so the file-level rules indentCheck_dedent_unknown / _expected_indent / _unexpected_indent / _inconsistent / "
+    "_expected_indent_eof carry no hypothesis on the stack; indentCheck_rejection_reason: every rejection has one of "
+    "these reasons). What stays outside the theorems: the abstraction of a physical line to (leading whitespace, "
+    "opener | simple | blank | comment) and the parser's Indent/Dedent block rule that indentGo's `need` flag stands "
+    "for (the LALRPOP automaton is not modelled) are tied by the exhaustive indent-script correspondence; no "
+    "independent Spec of a 'well-indented file' (Python's tokenizer algorithm) is related to indentCheck as a whole, "
+    "only rule by rule",
 ]
 READY = True
 TECHNIQUE = ("Lean 4 theorems (validate_iff per rule, bracket matcher = Dyck language, compare_strict = agreement for "
@@ -158,6 +190,10 @@ LEVEL_TEXT = ("Machine-checked Lean 4 theorems, for inputs of every size, about 
               "bracket matcher accepts exactly the Dyck language and stops at the first non-completable symbol; "
               "compare_strict answers o iff o is the order for every positive tab and space width (so every CPython "
               "TabError is reported, witnessed stricter); the dedent search fails iff the level is not on the stack; the "
+              "indentation line driver keeps its stack strictly ordered in every reachable state, so for whole files of any "
+              "length a dedent to an unknown level, a missing indent after an opener (also at end of file), an unexpected "
+              "indent and a tab/space inconsistency are rejected with the stated kind and offset, and every rejection has "
+              "one of these reasons; the "
               "number lexer never takes a non-literal as one numeric token. The models are tied to the Rust code on every "
               "run by exhaustive small-scope correspondence (quick/thorough: parameter lists <=4/5, argument lists <=4/5, "
               "bracket words <=5/7, indentation scripts <=3-4 lines, numerals <=4/6, strings <=6/8, f-string bodies "
